@@ -4,7 +4,7 @@
    proves the property -- is built from exactly the rules the source states now.
    Only statements + `exact`; proofs in Front/CondRules.v. *)
 From Coq Require Import ZArith List Bool.
-From PyRTL Require Import Front.Cond Front.CondSpec Front.CondProofs Gen.CondRules Front.CondRules.
+From PyRTL Require Import Front.Cond Front.CondSpec Front.CondProofs Front.CondWidth Gen.CondRules Front.CondRules.
 Import ListNotations.
 Open Scope Z_scope.
 
@@ -81,3 +81,46 @@ Example C07_rule_current_select_example :
   = (Some (BAnd (BAnd (BAnd (BNot (BVar 1)) (BVar 2)) (BNot (BVar 3))) (BVar 4)),
      [(1, true); (2, false); (3, true); (4, false)]).
 Proof. vm_compute. reflexivity. Qed.
+
+(* The assembled state machine.  Gen/CondRules.v also assembles _push_condition, _build, the per-target part
+   of _finalize and the whole elaboration (gen_elab) from the regenerated rules, in the statement order its
+   shape checks established.  They are the functions of the hand-written model, so the property theorems
+   hold of the regenerated elaborator itself. *)
+Theorem C07_rule_push : forall pw c s, push_w pw c s = gen_push pw c s.
+Proof. exact rule_push. Qed.
+Print Assumptions C07_rule_push.
+
+Theorem C07_rule_build : forall l pl s, build l pl s = gen_build l pl s.
+Proof. exact rule_build. Qed.
+Print Assumptions C07_rule_build.
+
+Theorem C07_rule_finalize_target : forall d kv, fin_one d kv = gen_fin_one d kv.
+Proof. exact rule_fin_one. Qed.
+Print Assumptions C07_rule_finalize_target.
+
+Theorem C07_rule_elab : forall pw prog d, elab_w pw prog d = gen_elab pw prog d.
+Proof. exact rule_elab. Qed.
+Print Assumptions C07_rule_elab.
+
+Theorem C07_regenerated_elaborator_rejects_iff : forall pw prog d,
+  gen_elab pw prog d = None <-> spec_accepts_w pw prog = false.
+Proof. exact gen_elab_none_iff. Qed.
+Print Assumptions C07_regenerated_elaborator_rejects_iff.
+
+Theorem C07_regenerated_elaborator_value : forall pw prog d res, gen_elab pw prog d = Some res ->
+  forall t, In (LW t) (map fst (slits prog)) ->
+  exists e, res_get res (LW t) = Some (FVal e) /\ forall E, Some (veval E e) = spec_value E d prog t.
+Proof. exact gen_elab_value. Qed.
+Print Assumptions C07_regenerated_elaborator_value.
+
+Theorem C07_regenerated_elaborator_memory : forall pw prog d res, gen_elab pw prog d = Some res ->
+  forall m, In (LM m) (map fst (slits prog)) ->
+  exists en ad da, res_get res (LM m) = Some (FMem en ad da) /\
+    forall E,
+      match spec_mem E prog m with
+      | Some None => veval E en = 0
+      | Some (Some (a, dd, e)) => veval E en = e /\ veval E ad = a /\ veval E da = dd
+      | None => False
+      end.
+Proof. exact gen_elab_memory. Qed.
+Print Assumptions C07_regenerated_elaborator_memory.
